@@ -1,77 +1,139 @@
 #!/usr/bin/env python3
 """Generates units/config.rs.in from a field table written from the documentation (vpncloud.adoc / README: every option can be
-given in the config file and on the command line; command line wins; list options accumulate)."""
+given in the config file and on the command line; the command line wins; list options accumulate).
+
+Config::merge_file and Config::merge_args are sequences of ~35 independent conditional field updates of a 36-field struct; the
+verification condition of the whole function exceeds the solver's resource limit (z3 and cvc5).  The functions are therefore cut
+into four contiguous statement ranges each (rule B1; the extractor checks the anchors, the ranges are adjacent by construction:
+each starts where the previous one ends), and each range gets a contract over the WHOLE Config value: the fields it owns follow
+the documented rule, every other field is unchanged.  The documented rule for the whole function is the composition of the four.
+"""
 import os
 HERE = os.path.dirname(os.path.abspath(__file__))
 
-# (config field path, kind, file expression, args expression)
-#   kind: value | option | list | algos ; file/args expression: spec expression of type Option<T> giving "Some(v) iff the source sets it"
+# (config field path, kind, file expression, args expression, chunk in merge_file, chunk in merge_args)
 F = [
- ('device_type', 'value', 'dev_type(file)', 'args.type_'),
- ('device_name', 'value', 'dev_name(file)', 'args.device'),
- ('device_path', 'option', 'dev_path(file)', 'args.device_path'),
- ('fix_rp_filter', 'value', 'dev_rp(file)', 'flag(args.fix_rp_filter, true)'),
- ('ip', 'option', 'file.ip', 'args.ip'),
- ('ifup', 'option', 'file.ifup', 'args.ifup'),
- ('ifdown', 'option', 'file.ifdown', 'args.ifdown'),
- ('listen', 'value', 'file.listen', 'args.listen'),
- ('peer_timeout', 'value', 'file.peer_timeout', 'args.peer_timeout'),
- ('keepalive', 'option', 'file.keepalive', 'args.keepalive'),
- ('beacon_store', 'option', 'bc_store(file)', 'args.beacon_store'),
- ('beacon_load', 'option', 'bc_load(file)', 'args.beacon_load'),
- ('beacon_interval', 'value', 'bc_interval(file)', 'args.beacon_interval'),
- ('beacon_password', 'option', 'bc_password(file)', 'args.beacon_password'),
- ('mode', 'value', 'file.mode', 'args.mode'),
- ('switch_timeout', 'value', 'file.switch_timeout', 'args.switch_timeout'),
- ('auto_claim', 'value', 'file.auto_claim', 'flag(args.no_auto_claim, false)'),
- ('port_forwarding', 'value', 'file.port_forwarding', 'flag(args.no_port_forwarding, false)'),
- ('daemonize', 'value', 'None::<bool>', 'flag(args.daemon, true)'),
- ('pid_file', 'option', 'file.pid_file', 'args.pid_file'),
- ('stats_file', 'option', 'file.stats_file', 'args.stats_file'),
- ('statsd_server', 'option', 'sd_server(file)', 'args.statsd_server'),
- ('statsd_prefix', 'option', 'sd_prefix(file)', 'args.statsd_prefix'),
- ('user', 'option', 'file.user', 'args.user'),
- ('group', 'option', 'file.group', 'args.group'),
- ('crypto.password', 'option', 'file.crypto.password', 'args.password'),
- ('crypto.public_key', 'option', 'file.crypto.public_key', 'args.public_key'),
- ('crypto.private_key', 'option', 'file.crypto.private_key', 'args.private_key'),
- ('advertise_addresses', 'list', 'optlist(file.advertise_addresses)', 'args.advertise_addresses@'),
- ('peers', 'list', 'optlist(file.peers)', 'args.peers@'),
- ('claims', 'list', 'optlist(file.claims)', 'args.claims@'),
- ('crypto.trusted_keys', 'list', 'file.crypto.trusted_keys@', 'args.trusted_keys@'),
+ ('device_type', 'value', 'dev_type(file)', 'args.type_', 1, 1),
+ ('device_name', 'value', 'dev_name(file)', 'args.device', 1, 1),
+ ('device_path', 'option', 'dev_path(file)', 'args.device_path', 1, 1),
+ ('fix_rp_filter', 'value', 'dev_rp(file)', 'flag(args.fix_rp_filter, true)', 1, 1),
+ ('ip', 'option', 'file.ip', 'args.ip', 1, 1),
+ ('advertise_addresses', 'list', 'optlist(file.advertise_addresses)', 'args.advertise_addresses@', 1, 1),
+ ('ifup', 'option', 'file.ifup', 'args.ifup', 1, 1),
+ ('ifdown', 'option', 'file.ifdown', 'args.ifdown', 1, 1),
+ ('listen', 'value', 'file.listen', 'args.listen', 2, 1),
+ ('peers', 'list', 'optlist(file.peers)', 'args.peers@', 2, 1),
+ ('peer_timeout', 'value', 'file.peer_timeout', 'args.peer_timeout', 2, 2),
+ ('keepalive', 'option', 'file.keepalive', 'args.keepalive', 2, 2),
+ ('beacon_store', 'option', 'bc_store(file)', 'args.beacon_store', 2, 2),
+ ('beacon_load', 'option', 'bc_load(file)', 'args.beacon_load', 2, 2),
+ ('beacon_interval', 'value', 'bc_interval(file)', 'args.beacon_interval', 2, 2),
+ ('beacon_password', 'option', 'bc_password(file)', 'args.beacon_password', 2, 2),
+ ('mode', 'value', 'file.mode', 'args.mode', 3, 2),
+ ('switch_timeout', 'value', 'file.switch_timeout', 'args.switch_timeout', 3, 2),
+ ('claims', 'list', 'optlist(file.claims)', 'args.claims@', 3, 2),
+ ('auto_claim', 'value', 'file.auto_claim', 'flag(args.no_auto_claim, false)', 3, 3),
+ ('port_forwarding', 'value', 'file.port_forwarding', 'flag(args.no_port_forwarding, false)', 3, 3),
+ ('daemonize', 'value', 'None::<bool>', 'flag(args.daemon, true)', 0, 3),
+ ('pid_file', 'option', 'file.pid_file', 'args.pid_file', 3, 3),
+ ('stats_file', 'option', 'file.stats_file', 'args.stats_file', 3, 3),
+ ('statsd_server', 'option', 'sd_server(file)', 'args.statsd_server', 3, 3),
+ ('statsd_prefix', 'option', 'sd_prefix(file)', 'args.statsd_prefix', 3, 3),
+ ('user', 'option', 'file.user', 'args.user', 4, 3),
+ ('group', 'option', 'file.group', 'args.group', 4, 3),
+ ('crypto.password', 'option', 'file.crypto.password', 'args.password', 4, 4),
+ ('crypto.public_key', 'option', 'file.crypto.public_key', 'args.public_key', 4, 4),
+ ('crypto.private_key', 'option', 'file.crypto.private_key', 'args.private_key', 4, 4),
+ ('crypto.trusted_keys', 'list', 'file.crypto.trusted_keys@', 'args.trusted_keys@', 4, 4),
+ ('crypto.algorithms', 'algos', 'file.crypto.algorithms', 'args.algorithms', 4, 4),
+ # hook / hooks are handled by the R5 pinned statements in chunk 4 (no contract on their value)
+ ('hook', 'free', None, None, 4, 4),
+ ('hooks', 'free', None, None, 4, 4),
 ]
 
+# chunk boundaries: each chunk runs from the previous boundary (or the start of the body) until the next anchor (exclusive)
+FILE_BOUNDS = ['if let Some(val) = file.listen {', 'if let Some(val) = file.mode {', 'if let Some(val) = file.user {']
+ARGS_BOUNDS = ['if let Some(val) = args.peer_timeout {', 'if args.no_auto_claim {', 'if let Some(val) = args.password {']
 
-def clause(field, kind, src, who):
+
+def clause(field, kind, src, owned):
     f = 'final(self).%s' % field
     o = 'old(self).%s' % field
+    if kind == 'free':
+        return None if owned else '            %s == %s,' % (f, o)
+    if not owned or src is None:
+        return '            %s == %s,' % (f, o) if kind not in ('list', 'algos') else '            %s@ == %s@,' % (f, o)
     if kind == 'value':
         return '            %s == (match %s { Some(v) => v, None => %s }),' % (f, src, o)
     if kind == 'option':
         return '            %s == (match %s { Some(v) => Some(v), None => %s }),' % (f, src, o)
     if kind == 'list':
         return '            %s@ == %s@ + %s,' % (f, o, src)
+    if kind == 'algos':
+        return ('            %s@.len() > 0 ==> %s@.len() == %s@.len(),\n            %s@.len() == 0 ==> %s@ == %s@,' % (src, f, src, src, f, o))
     raise ValueError(kind)
 
 
-def contract(who):
-    idx = 2 if who == 'file' else 3
-    lines = ['        ensures']
-    lines.append('            // every scalar / optional setting: the value of this source if it gives one, else what was there before;')
-    lines.append('            // list-valued settings accumulate (this source is appended)')
-    only = os.environ.get('CONFIG_ONLY')
+def contract(who, chunk):
+    ci = 4 if who == 'file' else 5
+    si = 2 if who == 'file' else 3
+    lines = ['        ensures',
+             '            // fields handled by this range: the value of this source if it gives one, else what was there before; lists accumulate;',
+             '            // every other field of the configuration is unchanged']
     for row in F:
-        if only and row[0] not in only.split(','):
+        owned = row[ci] == chunk
+        c = clause(row[0], row[1], row[si], owned)
+        if c:
+            lines.append(c)
+    return '\n'.join(lines)
+
+
+def blocks(who):
+    fn = 'merge_file' if who == 'file' else 'merge_args'
+    param = 'mut file: ConfigFile' if who == 'file' else 'mut args: Args'
+    bounds = FILE_BOUNDS if who == 'file' else ARGS_BOUNDS
+    out = []
+    for k in range(1, 5):
+        frm = 'start' if k == 1 else '"%s"' % bounds[k - 2]
+        to = 'to end' if k == 4 else 'until "%s"' % bounds[k - 1]
+        out.append('//@ block src/config.rs Config::%s from %s %s' % (fn, frm, to))
+        out.append('//@   head')
+        out.append('fn %s_part%d(&mut self, %s)' % (fn, k, param))
+        out.append('//@   contract')
+        out.append(contract(who, k))
+        if k == 4 and who == 'file':
+            out.append('//@   subst "for (k, v) in file.hooks {\\n            self.hooks.insert(k, v);\\n        }" => "pinned_merge_hooks_from_file(&mut self.hooks, file.hooks);" rule R5')
+        if k == 4 and who == 'args':
+            out.append('//@   replace from "for s in args.hook {" to "self.hook = Some(s);\\n            }\\n        }"')
+            out.append('        pinned_merge_hook_args(&mut self.hook, &mut self.hooks, args.hook);')
+        out.append('//@ end')
+        out.append('')
+    return '\n'.join(out)
+
+
+def into_contract():
+    lines = ['        ensures',
+             '            // the file form carries every setting the file format can express (all but `daemonize`), so that merging it',
+             '            // into defaults reproduces them (with the merge_file contracts: value/option fields are set, lists are appended to empty lists)']
+    for row in F:
+        field, kind, fsrc = row[0], row[1], row[2]
+        if row[4] == 0 or kind == 'free':
             continue
-        lines.append(clause(row[0], row[1], row[idx], who))
-    src = 'file.crypto.algorithms' if who == 'file' else 'args.algorithms'
-    lines.append('            // cipher list: replaced as a whole when this source names any')
-    lines.append('            %s@.len() > 0 ==> final(self).crypto.algorithms@.len() == %s@.len(),' % (src, src))
-    lines.append('            %s@.len() == 0 ==> final(self).crypto.algorithms@ == old(self).crypto.algorithms@,' % src)
+        e = fsrc.replace('(file)', '(file_)').replace('file.', 'file_.')
+        if kind == 'value':
+            lines.append('            %s == Some(self.%s),' % (e, field))
+        elif kind == 'option':
+            lines.append('            %s == self.%s,' % (e, field))
+        elif kind == 'list':
+            lines.append('            %s == self.%s@,' % (e, field))
+        elif kind == 'algos':
+            lines.append('            %s@ == self.%s@,' % (e, field))
+    lines.append('            file_.hook == self.hook, file_.hooks == self.hooks,')
     return '\n'.join(lines)
 
 
 T = open(os.path.join(HERE, '..', 'units', 'config.rs.tpl')).read()
-T = T.replace('/*@CONTRACT_FILE@*/', contract('file')).replace('/*@CONTRACT_ARGS@*/', contract('args'))
+T = T.replace('/*@CONTRACT_INTO@*/', into_contract())
+T = T.replace('/*@BLOCKS_FILE@*/', blocks('file')).replace('/*@BLOCKS_ARGS@*/', blocks('args'))
 open(os.path.join(HERE, '..', 'units', 'config.rs.in'), 'w').write('// GENERATED by tools/gen_config_unit.py from units/config.rs.tpl and its field table - do not edit\n' + T)
-print('units/config.rs.in written (%d fields)' % len(F))
+print('units/config.rs.in written (%d fields, 8 blocks)' % len(F))
